@@ -320,18 +320,18 @@ pub fn property() -> Property {
                 rule: "generated: country x expression (`PH`, `SH`, `PH +-{1,2,7,30} days`) under Context::with_holidays(country.holidays()) x 6 dates (listed dates shifted by the offset, +-0/1/2 days, or uniform 1995..2080): open all day iff the data file lists the (shifted back) date; non-trivial = at least one expected-open day",
                 f: selectors,
                 text_f: None,
-                cases_quick: 30_000,
+                cases_quick: 60_000,
                 cases_thorough: 400_000,
-                max_choices: 40,
+                max_choices: 48,
             },
             SubCheck {
                 name: "near_codes",
                 rule: "generated near misses of every valid code (separator / digit / letter / control or combining character appended, prepended or inserted; subdivision-like suffixes `-TX`; two codes joined; lower and mixed case; the country's name; reversed code): accepted iff the string is exactly a listed code, and then as that country; non-trivial = a string that must be rejected",
                 f: near_codes,
                 text_f: None,
-                cases_quick: 20_000,
+                cases_quick: 40_000,
                 cases_thorough: 200_000,
-                max_choices: 12,
+                max_choices: 24,
             },
             text_sub("calendars_text", calendars_text),
             text_sub("codes_text", codes_text),
